@@ -21,6 +21,8 @@ class C01Suite(cc.ChainSuite):
             return ["crash: the implementation crashed"]
         if i["assert"]:
             return ["assert: " + i["assert"]]
+        for a in i["anomalies"]:
+            msgs.append("accessor: " + a)
         if i["deadlock"]:
             has_res = any(t[0] in ("r", "d") for t in i["threads"])
             return ["hang: waiters left hanging although the promise was invoked/destroyed"] if has_res else []
@@ -38,7 +40,7 @@ class C01Suite(cc.ChainSuite):
         st, val, hv = i["final"]
         if st != "ready":
             msgs.append("hang: future still pending after the promise was destroyed")
-        exp = cc.expected_outcome(i["threads"][wins[0]], T) if len(wins) == 1 else "canceled"
+        exp = cc.expected_outcome(i["threads"][wins[0]], T) if len(wins) == 1 else cc.end_outcome(case, T)
         if val != exp:
             msgs.append("payload: future holds %s, the winner supplied %s" % (val, exp))
         if (hv == "hv=1") != (exp not in ("canceled",)):
@@ -53,6 +55,8 @@ class C01Suite(cc.ChainSuite):
                     msgs.append("stable: waiter w%d observed %s, final result %s" % (w, o, val))
         if i["counted"] and not i["counted"].endswith("=0"):
             msgs.append("payload: instance-counted value constructed/destroyed unevenly (%s)" % i["counted"])
+        if val == "v:raw-storage" or any(o == "v:raw-storage" for obs in i["obs"].values() for o in obs):
+            msgs.append("payload: the future reports a value although none was constructed")
         return msgs
 
 
